@@ -718,6 +718,21 @@ func ruleSecondHelloEqualsFirst(c *Ctx, r *Report) {
 			}
 		}
 		r.Check(okCut, rule, short(callee), c.pos(callee.Pos()), "the three parts are slices of the snapshot's raw body", "the compared parts are not slices of the raw ClientHello body")
+		// the part behind the cookie reaches to the end of the hello: the DTLS 1.2 server negotiates
+		// from the first ClientHello (extended master secret, ALPN, server name, groups, signature
+		// algorithms, versions) while only the second is covered by the Finished messages, so an
+		// extension of the first that is not compared with the second is covered by nothing
+		toEnd := false
+		for _, b := range callee.Blocks {
+			ret, isRet := b.Instrs[len(b.Instrs)-1].(*ssa.Return)
+			if !isRet || len(ret.Results) != 3 {
+				continue
+			}
+			if sl, isSl := unspill(ret.Results[1]).(*ssa.Slice); isSl && sl.High == nil {
+				toEnd = true
+			}
+		}
+		r.Check(toEnd, rule, short(callee)+":tail-covers-extensions", c.pos(callee.Pos()), "the compared part behind the cookie runs to the end of the ClientHello", "the part of the ClientHello compared behind the cookie stops in front of the extensions: the extensions of the first ClientHello - from which the DTLS 1.2 server negotiates extended master secret, ALPN, server name, groups, signature algorithms and the protocol version - are neither compared with the second ClientHello nor covered by any Finished, so an on-path attacker who rewrites only the first ClientHello steers those parameters and both sides complete")
 		break
 	}
 }
